@@ -927,6 +927,14 @@ def mode_contracts(reg):
 
     def out_buffer(lc):
         refs = {v.ref: nme for nme, v in env_items(lc.st) if isinstance(v, VRef) and lc.st.heap.get(v.ref) is not None and lc.st.obj(v.ref).kind == "symarr"}
+        if len(refs) > 1 and getattr(lc, "entry", None) is not None:
+            # round 8: a scratch byte array the loop BODY creates (e.g. the XOR of block and chaining block built with
+            # bytearray() + append) is not the output buffer: the output buffer is live at loop entry.  Only a choice of the
+            # invariant's subject -- the driver's `ensures` on the returned bytes decide correctness either way.
+            at_entry = {nme for nme, v in env_items(lc.entry) if isinstance(v, VRef)}
+            live = {r: nme for r, nme in refs.items() if nme in at_entry}
+            if len(live) == 1:
+                refs = live
         if len(refs) != 1:
             raise ops.Unsupported(f"output buffer not recognised ({len(refs)} symbolic byte arrays among the locals)")
         return lc.st.obj(next(iter(refs))).data
